@@ -229,7 +229,10 @@ def _generate_code(
     imports = []
     classes = []
     generators = []
-    for data in structure:
+    # Class generator converts name of its model so all generators of this level should be created
+    # before nested models (that could refer to these models by name) are rendered
+    level_generators = [class_generator(data["model"], **class_generator_kwargs) for data in structure]
+    for data, gen in zip(structure, level_generators):
         nested_imports, nested_classes = _generate_code(
             data["nested"],
             class_generator,
@@ -238,7 +241,7 @@ def _generate_code(
         )
         imports.extend(nested_imports)
         generators.append((
-            class_generator(data["model"], **class_generator_kwargs),
+            gen,
             nested_classes
         ))
     for gen, nested_classes in generators:
